@@ -251,6 +251,9 @@ type violationMsg struct {
 }
 
 type workerOut struct {
+	progress string // file with the index of the run in progress
+	worker   int
+	cold     bool
 	stats map[string]any
 	raw   json.RawMessage
 	viol  []violationMsg
@@ -516,7 +519,9 @@ func runPass(b *build, prop string, seed uint64, secs float64, nWorkers int, rac
 			if race {
 				raceLog = filepath.Join(b.Dir, fmt.Sprintf("race-w%d", w))
 			}
-			o := runWorker(bin, []string{"run", "-prop", prop, "-seed", fmt.Sprint(seed), "-worker", fmt.Sprint(w), "-secs", fmt.Sprint(longSecs), "-outdir", b.Dir, "-known", knownFilePath()}, 2, raceLog)
+			prog := filepath.Join(b.Dir, fmt.Sprintf("progress-%v-%d", race, w))
+			o := runWorker(bin, []string{"run", "-prop", prop, "-seed", fmt.Sprint(seed), "-worker", fmt.Sprint(w), "-secs", fmt.Sprint(longSecs), "-outdir", b.Dir, "-known", knownFilePath(), "-progress", prog}, 2, raceLog)
+			o.progress, o.worker = prog, w
 			mu.Lock()
 			outs = append(outs, o)
 			mu.Unlock()
@@ -527,11 +532,13 @@ func runPass(b *build, prop string, seed uint64, secs float64, nWorkers int, rac
 				if race {
 					raceLog = filepath.Join(b.Dir, fmt.Sprintf("race-c%d", id))
 				}
-				o := runWorker(bin, []string{"run", "-prop", prop, "-seed", fmt.Sprint(seed), "-worker", fmt.Sprint(id), "-runs", coldRuns, "-outdir", b.Dir, "-cold", "-known", knownFilePath()}, 2, raceLog)
+				prog := filepath.Join(b.Dir, fmt.Sprintf("progress-%v-%d", race, id))
+				o := runWorker(bin, []string{"run", "-prop", prop, "-seed", fmt.Sprint(seed), "-worker", fmt.Sprint(id), "-runs", coldRuns, "-outdir", b.Dir, "-cold", "-known", knownFilePath(), "-progress", prog}, 2, raceLog)
+				o.progress, o.worker, o.cold = prog, id, true
 				mu.Lock()
 				outs = append(outs, o)
 				mu.Unlock()
-				if len(o.viol) > 0 {
+				if len(o.viol) > 0 || o.stats == nil {
 					break
 				}
 			}
@@ -675,6 +682,16 @@ func runProperty(prop, tier string, seed uint64) int {
 	for _, ps := range passes {
 		for w, o := range ps.outs {
 			if o.stats == nil {
+				if what := libraryCrash(o.log); what != "" && o.progress != "" {
+					// the process died of a fatal runtime error raised inside library
+					// code (unsafe misuse caught by checkptr, a fault, runaway
+					// recursion): regenerate what it was executing
+					if vm, ok := crashViolation(ps.build, ps.raceBuild, prop, seed, o, what); ok {
+						allViol = append(allViol, vm)
+						violBuild = append(violBuild, ps.build)
+						continue
+					}
+				}
 				harnessTrouble = fmt.Sprintf("worker %d produced no statistics (exit: %v) stderr: %s", w, o.err, trunc(o.log, 2000))
 				continue
 			}
@@ -1090,13 +1107,36 @@ func minimiseAndVerify(b *build, prop string, vm violationMsg, seed uint64, race
 	final := filepath.Join(verifHome, "out", "replays", name)
 	minOut := filepath.Join(b.Dir, "min-"+name)
 	ncpu := procNCPU(vm.Worker)
+	if vm.V.Class == "library-crash" {
+		// no minimiser for a process that dies: the last plan alone if that is
+		// enough, else the worker's whole history
+		var rf map[string]any
+		dec := json.NewDecoder(bytes.NewReader(vm.File))
+		dec.UseNumber()
+		if dec.Decode(&rf) == nil {
+			if plans, ok := rf["plans"].([]any); ok && len(plans) > 1 {
+				rf["plans"] = plans[len(plans)-1:]
+				if data, err := json.Marshal(rf); err == nil {
+					one := filepath.Join(b.Dir, "one-"+name)
+					os.WriteFile(one, data, 0o644)
+					o := runWorkerCPU(bin, []string{"exec", "-in", one}, 2, "", ncpu)
+					if o.stats == nil && libraryCrash(o.log) != "" {
+						os.WriteFile(raw, data, 0o644)
+					}
+				}
+			}
+		}
+	}
 	c := exec.Command(bin, "min", "-in", raw, "-out", minOut, "-secs", "30")
+	if vm.V.Class == "library-crash" {
+		c = exec.Command("true")
+	}
 	c.Env = append(goEnv(), "GORACE=halt_on_error=0 atexit_sleep_ms=0 log_path=/dev/null", fmt.Sprintf("VSIM_NCPU=%d", ncpu))
 	out, _ := c.CombinedOutput()
 	src := raw
 	if _, err := os.Stat(minOut); err == nil {
 		src = minOut
-	} else if vm.V.Class != "race" && vm.Run > 0 && vm.Run <= 200000 {
+	} else if vm.V.Class != "race" && vm.V.Class != "library-crash" && vm.Run > 0 && vm.Run <= 200000 {
 		// Not reproducible on its own: the library may carry state over from
 		// earlier runs of that worker process. Regenerate the worker's earlier
 		// plans and let the minimiser find the runs that matter.
@@ -1153,6 +1193,16 @@ func minimiseAndVerify(b *build, prop string, vm violationMsg, seed uint64, race
 			os.WriteFile(tmp, data, 0o644)
 		}
 		o := runWorkerCPU(bin, []string{"exec", "-in", tmp, "-trace"}, 2, raceLog, ncpu)
+		if o.stats == nil {
+			if what := libraryCrash(o.log); what != "" {
+				// the replay itself dies of a fatal runtime error inside library
+				// code: that is a violation in its own right, whatever class the
+				// search had seen first
+				status = "confirmed"
+				pf["replayed"] = map[string]any{"class": "library-crash", "detail": what}
+				pf["crash_report"] = trunc(o.log, 6000)
+			}
+		}
 		if o.stats != nil {
 			if vs, ok := o.stats["violations"].([]any); ok {
 				for _, v := range vs {
@@ -1187,6 +1237,94 @@ func minimiseAndVerify(b *build, prop string, vm violationMsg, seed uint64, race
 	data, _ = json.MarshalIndent(pf, "", " ")
 	os.WriteFile(final, data, 0o644)
 	return final, status
+}
+
+// libraryCrash recognises a fatal runtime error (not a panic: those are values
+// to the harness) whose crashing goroutine was executing library code, and
+// returns a one-line description ("" otherwise). Only kinds of fatal error
+// that code can bring upon itself count; a deadlock of the simulator or an
+// out-of-memory kill would be this machinery's trouble.
+func libraryCrash(log string) string {
+	i := strings.Index(log, "fatal error: ")
+	if i < 0 {
+		if i = strings.Index(log, "unexpected fault address"); i < 0 {
+			return ""
+		}
+	}
+	first := log[i:]
+	if k := strings.IndexByte(first, '\n'); k >= 0 {
+		first = first[:k]
+	}
+	ok := false
+	for _, kind := range []string{"checkptr:", "unexpected fault address", "unexpected signal", "concurrent map", "stack overflow", "fault"} {
+		ok = ok || strings.Contains(first, kind)
+	}
+	if !ok {
+		return ""
+	}
+	// the first goroutine trace after the message is the one that died
+	rest := log[i:]
+	g := strings.Index(rest, "\ngoroutine ")
+	if g < 0 {
+		return ""
+	}
+	rest = rest[g+1:]
+	if e := strings.Index(rest, "\n\n"); e >= 0 {
+		rest = rest[:e]
+	}
+	frames := 0
+	for _, l := range strings.Split(rest, "\n") {
+		if strings.HasPrefix(l, "\t") || strings.HasPrefix(l, "goroutine ") {
+			continue
+		}
+		frames++
+		if frames > 12 {
+			break
+		}
+		if strings.HasPrefix(l, modPath+"/") && !strings.HasPrefix(l, modPath+"/verifsim/") {
+			fn := l
+			if p := strings.IndexByte(fn, '('); p > 0 {
+				fn = fn[:p]
+			}
+			return first + " in " + fn
+		}
+	}
+	return ""
+}
+
+// crashViolation builds the violation record for a worker that died of a fatal
+// runtime error in library code: the plans are regenerated from the worker's
+// identity and the index of the run it was executing.
+func crashViolation(b *build, race bool, prop string, seed uint64, o *workerOut, what string) (violationMsg, bool) {
+	var vm violationMsg
+	data, err := os.ReadFile(o.progress)
+	if err != nil {
+		return vm, false
+	}
+	run, err := strconv.Atoi(strings.TrimLeft(strings.TrimSpace(string(data)), "0"))
+	if err != nil {
+		run = 0
+	}
+	bin := b.WorkerNR
+	if race {
+		bin = b.Worker
+	}
+	tmp := filepath.Join(b.Dir, fmt.Sprintf("crash-%v-%d.json", race, o.worker))
+	args := []string{"dump", "-prop", prop, "-seed", fmt.Sprint(seed), "-worker", fmt.Sprint(o.worker), "-upto", fmt.Sprint(run), "-class", "library-crash", "-out", tmp}
+	if o.cold {
+		args = append(args, "-cold")
+	}
+	if out, err := cmdOut(b.Dir, goEnv(), bin, args...); err != nil {
+		_ = out
+		return vm, false
+	}
+	file, err := os.ReadFile(tmp)
+	if err != nil {
+		return vm, false
+	}
+	vm = violationMsg{Type: "violation", Worker: o.worker, Run: run, BaseSeed: seed, Cold: o.cold, File: file}
+	vm.V = violation{Prop: prop, Class: "library-crash", Task: -1, Op: -1, Detail: what + " (the worker process died; the Go runtime does not let a program survive this)", NeedsRun: -1}
+	return vm, true
 }
 
 // raceTouchesLibrary reports whether some stack frame of a race report lies in
@@ -1228,6 +1366,9 @@ func cmdReplay(args []string) {
 		die2("%s: %v", args[0], err)
 	}
 	race := pf.Prop == "C14"
+	if pf.Violation.Class == "library-crash" || pf.Class == "library-crash" {
+		race = pf.Race // checkptr failures only exist in race builds
+	}
 	b := doBuild("replay", "go", race, !race)
 	bin := b.WorkerNR
 	if race {
@@ -1239,6 +1380,12 @@ func cmdReplay(args []string) {
 	}
 	o := runWorkerCPU(bin, []string{"exec", "-in", args[0], "-trace"}, 2, raceLog, pf.ProcNCPU)
 	if o.stats == nil {
+		if what := libraryCrash(o.log); what != "" {
+			fmt.Printf("replayed: class=library-crash: %s\n%s\n", what, trunc(o.log, 3000))
+			cleanupAll()
+			fmt.Printf("VIOLATION property=%s replay=%s\n", pf.Prop, args[0])
+			os.Exit(1)
+		}
 		die2("replay produced no result: %v %s", o.err, trunc(o.log, 2000))
 	}
 	hit := false
